@@ -11,7 +11,9 @@ and `C04.hcm_append_nonreversal_code`, which gives the unconditional `assessment
 -/
 import Proofs.Lemmas.Assessment
 import Proofs.C04InsertCode
+import Proofs.C04PrependCode
 import Proofs.C05Code
+import Proofs.Lemmas.FkmRoughness
 
 namespace PylifeVerif.C10
 open PylifeVerif.HCM PylifeVerif.FkmNl PylifeVerif.Assess
@@ -148,7 +150,74 @@ theorem assessment_sample_insensitive (conv : Int → α) (n : Nat) (p : Params 
       assessSingle conv n p t (s ++ [v]) 1 = assessSingle conv n p t s 1) :=
   assessment_sample_insensitive_of_hcm_insert hcmInsertInterior hcmAppendNonreversal conv n p t
 
+/-! ### a sample in FRONT of the sequence -/
+
+/-- a sample between the initial load 0 and the first sample does not change the maximum absolute load -/
+theorem maxAbsI_prepend (s : List Int) (a v : Int) (hs : s.head? = some a) (h0 : (0 ≤ v ∧ v ≤ a) ∨ (a ≤ v ∧ v ≤ 0)) :
+    maxAbsI (v :: s) = maxAbsI s := by
+  cases s with
+  | nil => simp at hs
+  | cons b t =>
+    simp only [List.head?_cons, Option.some.injEq] at hs
+    subst hs
+    unfold maxAbsI
+    simp only [List.foldl_cons]
+    have : max (max (0:Int) (v.natAbs : Int)) (b.natAbs : Int) = max 0 (b.natAbs : Int) := by
+      rcases h0 with h | h <;> omega
+    rw [this]
+
+/-- **Sample insensitivity (P_RAM), sample in front.**  The first pass of the HCM run starts at load 0 and the sequence is
+repeated, so the first sample has TWO predecessors: the initial load 0 and the last sample.  A prepended sample that lies
+between the first sample and both of them (no reversal of the first pass, no reversal at the junction of the repetition)
+changes neither the verdict nor the lifetime.  (`C04.hcm_prepend_nonreversal_code`, a theorem about `twoPass`, the code.)
+A sample between the last and the first sample that is NOT between 0 and the first sample is a reversal of the first pass:
+`prepend_between_last_and_first_changes_records`. -/
+theorem assessment_sample_insensitive_prepend (conv : Int → α) (n : Nat) (p : Params α) (t : Tables)
+    (s : List Int) (a z v : Int) (hs : s.head? = some a) (hz : s.getLast? = some z)
+    (h0 : (0 ≤ v ∧ v ≤ a) ∨ (a ≤ v ∧ v ≤ 0)) (hl : (z ≤ v ∧ v ≤ a) ∨ (a ≤ v ∧ v ≤ z)) :
+    assessSingle conv n p t (v :: s) 1 = assessSingle conv n p t s 1 := by
+  have hid : ∀ L : List Int, L.map (1 * ·) = L := by
+    intro L; simp
+  have h1 := C04.hcm_prepend_nonreversal_code (lawOwn n (maxAbsI s) t) s a z v hs hz h0 hl
+  simp only [assessSingle, hid, maxAbsI_prepend s a v hs h0]
+  simp only [C04.one] at h1
+  rw [h1]
+
+/-! ### batch independence with the tables BUILT per point -/
+
+/-- the column maximum of a batch of proportional load sequences is the point's own maximum -/
+theorem colMaxAbs_batchLoads (L cs : List Int) (k : Nat) (hk : k < cs.length) :
+    colMaxAbs (batchLoads L cs) k = maxAbsI (L.map (cs.getD k 1 * ·)) := by
+  unfold colMaxAbs batchLoads
+  rw [List.map_map]
+  congr 1
+  apply List.map_congr_left
+  intro l _
+  simp only [Function.comp, List.getD_eq_getElem?_getD, List.getElem?_map, List.getElem?_eq_getElem hk, Option.map_some,
+    Option.getD_some]
+
+/-- **Batch independence (P_RAM) including the construction of the look-up tables.**  `tab M` is the look-up table that
+`Binned` builds for a point whose maximum absolute load is `M` (the values of the notch law at the class edges `i/n·M`: a
+function of the point's own maximum only - C07).  In a call for all points the table of the point at position `k` is built
+from the maximum of column `k` of the load sequence (`colMaxAbs`: maxima matched to the points by position), alone from the
+maximum of its own sequence: these are the same number (`colMaxAbs_batchLoads`), hence the same table, and the point gets
+the same verdict and lifetime.  (`assessment_batch_independent_PRAM` takes ONE table for both sides; this form discharges
+"the table built for point k inside the batch is the table built for it alone" for the position-matched maxima.) -/
+theorem assessment_batch_independent_PRAM_tables (conv : Int → α) (n : Nat) (p : Params α) (tab : Int → Tables)
+    (htab : ∀ M, (tab M).SecPos) (L cs : List Int) (hc : ∀ c ∈ cs, 0 < c) (k : Nat) (hk : k < cs.length) :
+    assessBatch conv n p (tab (colMaxAbs (batchLoads L cs) k)) L cs k
+      = assessSingle conv n p (tab (maxAbsI (L.map (cs.getD k 1 * ·)))) L (cs.getD k 1) := by
+  rw [colMaxAbs_batchLoads L cs k hk]
+  exact (assessment_batch_independent_PRAM conv n p _ (htab _) L cs hc k hk).1
+
 end generic
+
+/-- The scope of "non-reversal sample" at the head of the sequence is needed: 59 lies between the last sample 60 and the first
+sample 1 but not between the initial load 0 and 1 - it is a reversal of the first pass, whose Memory-3 hysteresis becomes ±59
+instead of ±1 (the real code: P_RAM lifetime 43.771 -> 43.306 for [10,-600,600] -> [590,10,-600,600]). -/
+theorem prepend_between_last_and_first_changes_records :
+    (twoPass lawSat (C04.one (59 :: [1, -60, 60]))).recs ≠ (twoPass lawSat (C04.one [1, -60, 60])).recs := by
+  decide +kernel
 
 /-! ## monotonicity of the lifetime (carrier ℝ) -/
 
@@ -179,6 +248,9 @@ theorem dam_facts (c : PramCurve ℝ) (h : c.Adm) (rows : List (Row ℝ)) (ok : 
 within the two recorded passes, or the first pass recorded at most one hysteresis more than the second.  (The
 early-failure lifetime is an index into ALL recorded hystereses, the regular lifetime a multiple of the number of
 second-pass hystereses; without this the two are not comparable.) -/
+-- The second disjunct is NOT a fact about `twoPass`: growing alternating loads give n1 = 2m − 1, n2 = m
+-- (`Proofs/Lemmas/FkmRegime.lean`: `regime_second_disjunct_refuted`), and there the real code's lifetime does grow across the
+-- early-failure boundary (finding `mono-P_RAM-early-failure-count`: 6.27 -> 7.0 cycles); `Regime` is a genuine hypothesis.
 def Regime (dsMore dsLess : List (ℝ × Nat)) : Prop :=
   (lifetimeOfDamages dsMore).early = false ∨ countRun 1 dsLess ≤ countRun 2 dsLess + 1
 
@@ -346,8 +418,8 @@ theorem componentCurve_PD (p : Params ℝ) : (componentCurve p).PD =
   simp only [componentCurve, curveOf, fRAM, lit_1, one_div_div]
   ring
 
-/-- **A rougher surface never increases the lifetime** (smaller roughness factor `K_R,P`; see `kRP_antitone` for
-`K_R,P` as a function of `R_z`).  Full statement: without `hreg` (see `lifetime_antitone_in_curve_partial`). -/
+/-- **A rougher surface never increases the lifetime** (smaller roughness factor `K_R,P`; `K_R,P` as a function of the
+roughness `R_z` is antitone: `Assess.kRP_antitone_group` in `Proofs/Lemmas/FkmRoughness.lean`).  Full statement: without `hreg` (see `lifetime_antitone_in_curve_partial`). -/
 theorem lifetime_antitone_in_roughness_partial (conv : Int → ℝ) (p : Params ℝ) (krp' : ℝ) (hk0 : 0 < krp') (hk : krp' ≤ p.krp)
     (hA : (componentCurve p).Adm) (hA' : (componentCurve { p with krp := krp' }).Adm) (k : Nat) (recs : List Hyst)
     (ok : RowsOk (rowsOf conv (mSigmaOf p.g p.Rm) (consts p.g : Consts ℝ).E k recs))
@@ -370,6 +442,27 @@ theorem lifetime_antitone_in_roughness_partial (conv : Int → ℝ) (p : Params 
   have hPD : (componentCurve { p with krp := krp' }).PD ≤ (componentCurve p).PD := by
     rw [hD, hD']; exact mul_le_mul_of_nonneg_right hk hAd.le
   exact lifetime_antitone_in_curve_partial (componentCurve p) (componentCurve { p with krp := krp' }) hA hA' rfl rfl hPZ hPD _ ok hreg
+
+/-- **A rougher surface never increases the lifetime, in terms of the roughness `R_z`** (what the property speaks of):
+`K_R,P = kRP(R_z, R_m)` (eq. 2.5-37) and `R_z ≤ R_z'`.  Composition of `lifetime_antitone_in_roughness_partial` with
+`Assess.kRP_antitone_group` (`Proofs/Lemmas/FkmRoughness.lean`).  Hypotheses of that step: `R_m,N,min ≤ 2 R_m` and a
+non-negative base of the power for the rougher surface (beyond it the code computes `negative ** b = NaN`); `hk0`: the
+rougher surface's factor is positive (base > 0). -/
+theorem lifetime_antitone_in_Rz_partial (conv : Int → ℝ) (p : Params ℝ) (Rz Rz' : ℝ) (hle : Rz ≤ Rz')
+    (hp : p.krp = kRP (consts p.g) Rz p.Rm)
+    (hRm : (consts p.g : Consts ℝ).R_m_N_min ≤ 2 * p.Rm)
+    (hbase : 1 < Rz' → 0 ≤ 1 - (consts p.g : Consts ℝ).a_RP * Real.logb 10 Rz' *
+      Real.logb 10 (2 * p.Rm / (consts p.g : Consts ℝ).R_m_N_min))
+    (hk0 : 0 < kRP (consts p.g) Rz' p.Rm)
+    (hA : (componentCurve p).Adm) (hA' : (componentCurve { p with krp := kRP (consts p.g) Rz' p.Rm }).Adm) (k : Nat) (recs : List Hyst)
+    (ok : RowsOk (rowsOf conv (mSigmaOf p.g p.Rm) (consts p.g : Consts ℝ).E k recs))
+    (hreg : Regime (dam (componentCurve { p with krp := kRP (consts p.g) Rz' p.Rm }) (rowsOf conv (mSigmaOf p.g p.Rm) (consts p.g : Consts ℝ).E k recs))
+                   (dam (componentCurve p) (rowsOf conv (mSigmaOf p.g p.Rm) (consts p.g : Consts ℝ).E k recs))) :
+    (assessRecs conv { p with krp := kRP (consts p.g) Rz' p.Rm } k recs).life.nCycles ≤ (assessRecs conv p k recs).life.nCycles ∧
+    ((assessRecs conv { p with krp := kRP (consts p.g) Rz' p.Rm } k recs).infinite = true → (assessRecs conv p k recs).infinite = true) := by
+  have hk : kRP (consts p.g) Rz' p.Rm ≤ p.krp := by
+    rw [hp]; exact kRP_antitone_group p.g p.Rm Rz Rz' hRm hle hbase
+  exact lifetime_antitone_in_roughness_partial conv p _ hk0 hk hA hA' k recs ok hreg
 
 theorem gammaM_mono (b b' : ℝ) (hb : b ≤ b') : gammaM b false ≤ gammaM b' false := by
   simp only [gammaM, transc_pow, Bool.false_eq_true, if_false]
@@ -430,6 +523,15 @@ example : classQ 10 (2 * 10) (2 * (3 * 7)) 3 10 = 7 ∧ classQ 10 (3 * 10) (3 * 
 /-- a sample between its neighbours / appended between last and first -/
 example : ((3:Int) ≤ 4 ∧ (4:Int) ≤ 9) ∨ ((9:Int) ≤ 4 ∧ (4:Int) ≤ 3) := Or.inl ⟨by decide, by decide⟩
 
+/-- a prepended sample between 0, the last and the first sample: `100 :: [200, -100, 300, 50]` -/
+example : (([200, -100, 300, 50] : List Int).head? = some 200) ∧ (([200, -100, 300, 50] : List Int).getLast? = some 50) ∧
+    (((0:Int) ≤ 100 ∧ (100:Int) ≤ 200) ∨ ((200:Int) ≤ 100 ∧ (100:Int) ≤ 0)) ∧
+    (((50:Int) ≤ 100 ∧ (100:Int) ≤ 200) ∨ ((200:Int) ≤ 100 ∧ (100:Int) ≤ 50)) := by decide
+
+/-- column maxima of the batch `L = [3, -7]`, ratios `[2, 3]`: 14 and 21, the points' own maxima -/
+example : colMaxAbs (batchLoads [3, -7] [2, 3]) 0 = 14 ∧ colMaxAbs (batchLoads [3, -7] [2, 3]) 1 = 21 ∧
+    maxAbsI ([(3:Int), -7].map (3 * ·)) = 21 := by decide
+
 /-- a collective satisfying `RowsOk` and `Regime` (one hysteresis per pass), admissible curves one below the other -/
 example : let rows : List (Row ℝ) := [⟨50, false, 1⟩, ⟨80, true, 2⟩]
     RowsOk rows ∧ (⟨-0.3, -0.2, 400, 100⟩ : PramCurve ℝ).Adm ∧ (⟨-0.3, -0.2, 300, 90⟩ : PramCurve ℝ).Adm ∧
@@ -448,6 +550,13 @@ example : StrictMono (id : ℝ → ℝ) ∧ id (-(-0.1 : ℝ)) = (0.1 : ℝ) ∧
   refine ⟨strictMono_id, by simp, ?_⟩
   simp only [dam, List.map, sumRun, lit_0]
   norm_num
+
+/-- hypotheses of `lifetime_antitone_in_Rz_partial` about the roughness: steel, `R_m = 600`, `R_z = 10 ≤ R_z' = 100` -/
+example : (consts Group.Steel : Consts ℝ).R_m_N_min ≤ 2 * 600 ∧ (10:ℝ) ≤ 100 ∧
+    (1 < (100:ℝ) → 0 ≤ 1 - (consts Group.Steel : Consts ℝ).a_RP * Real.logb 10 100 *
+      Real.logb 10 (2 * 600 / (consts Group.Steel : Consts ℝ).R_m_N_min)) ∧
+    0 < kRP (consts Group.Steel : Consts ℝ) 100 600 :=
+  ⟨by simp [consts]; norm_num, by norm_num, fun _ => steel_base_pos.le, kRP_pos _ 600 100 (fun _ => steel_base_pos)⟩
 
 /-- a safety index above another, statistical assessment on -/
 example : ((3.09 : ℝ) ≤ 3.8) ∧ (1.1 : ℝ) ≤ gammaM 3.09 false := ⟨by norm_num, gammaM_ge _⟩
